@@ -6,7 +6,7 @@ import re
 
 from .base import Monitor
 from .motion import mk
-from ..harness import Core, FakeComm, normalise, DEFAULT_EXT, hook_gcode
+from ..harness import Core, FakeComm, normalise, DEFAULT_EXT, DEFAULT_AT, hook_gcode, apply_core_settings, default_settings
 from ..gen import gen_program, gen_regions, wild_command
 from ..refprinter import tokenize
 
@@ -108,6 +108,15 @@ class C20(Monitor):
         settings = dict(g90e=rnd.random() < 0.3, ext=ext, enter=rnd.choice([None, ["M117 in"]]), exit=rnd.choice([None, ["M117 out", "M400"]]))
         regs, g = gen_program(rnd, feats, settings, nsteps=rnd.randint(10, 70))
         steps = g.steps
+        if rnd.random() < 0.15 and len(steps) > 12:
+            act = rnd.choice(["disable_exclusion", "enable_exclusion"])
+            new_at = [list(a) for a in DEFAULT_AT] + [["Skip", None, act]]
+            a = rnd.randrange(2, len(steps) // 2)
+            b = rnd.randrange(a + 1, len(steps) - 3)
+            steps.insert(b, ["settings", dict(settings, at=new_at)])
+            steps.insert(a, ["at", "Skip", "part 3"])
+            for _ in range(rnd.randint(1, 3)):
+                steps.insert(rnd.randrange(b + 2, len(steps) + 1), ["at", "Skip", "part 3"])
         cut = rnd.randint(1, max(1, len(steps) - 3))
         eol = rnd.choice(["\n", "\n", "\r\n"])
         lines = []
@@ -146,7 +155,8 @@ class C20(Monitor):
             lines[-1] = lines[-1][:-len(eol)]
         # the live print goes on for a few commands between the creation of the processor and its first line
         meanwhile = [s for s in steps[cut:cut + rnd.choice([0, 0, 1, 3, 6])] if s[0] in ("g", "at")] if rnd.random() < 0.4 else []
-        return dict(settings=settings, regions=regs, steps=[s if s[0] in ("g", "at") else None for s in steps], cut=cut, starts=starts,
+        return dict(settings=settings, regions=regs, steps=[s if s[0] in ("g", "at", "settings") else None for s in steps], cut=cut,
+                    starts=starts,
                     lines=lines, eol=eol, meanwhile=meanwhile, adaptive=rnd.random() < 0.5)
 
     def check_case(self, case):
@@ -155,6 +165,9 @@ class C20(Monitor):
         def drive(core, st):
             if st[0] == "g":
                 core.gcode(st[1])
+            elif st[0] == "settings":
+                # a settings save during the live print: the state is given new tables (the handlers object stays)
+                apply_core_settings(core.state, dict(default_settings(), **st[1]))
             else:
                 core.at(st[1], st[2])
         cut = case["cut"]
